@@ -399,6 +399,8 @@ class ElementList(MutableSequence):
         :return: an instance of :class:`Element <hl7apy.core.Element>` subclass
         """
         child = self.child_at_index(name, index)
+        if child is None:
+            raise ChildNotFound(name)
         self.remove(child)
         return child
 
